@@ -255,6 +255,10 @@ _PQ = [dict(M=3, nf=1, nparticles=0, includeOffEq=False, regrid=False),
        dict(M=4, nf=1, nparticles=0, includeOffEq=False, regrid=True)]
 _PT = _PQ + [dict(M=8, nf=2, nparticles=2, includeOffEq=True, regrid=True), dict(M=6, nf=2, nparticles=1, includeOffEq=False, regrid=True)]
 
+from props.c19 import h_veff as _h_veff
+import WallGo.effectivePotential as _EP
+import WallGo.helpers as _HL
+
 HARNESSES = [
     HarnessDef("wall-profile", h_profile, [dict(nf=1, zshape="scalar"), dict(nf=2, zshape="array"), dict(nf=2, zshape="scalar")],
                max_paths=10, timeout_s=60, axioms=AX, encodes=[EOMM.EOM.wallProfile], random_validation=2),
@@ -266,6 +270,15 @@ HARNESSES = [
                max_paths=6, timeout_s=60, encodes=[EOMM.EOM.action], random_validation=1),
     HarnessDef("parameter-clipping", h_clip, [dict()], max_paths=30, timeout_s=30,
                encodes=[EOMM.EOM._intermediatePressureResults], random_validation=1),
+    # dV/dphi entering the pressure integrand: the real EffectivePotential.derivField with ONE
+    # TEMPERATURE PER GRID POINT (a profile) is, at every point, the exact field gradient at that
+    # point's own temperature -- in particular a T-only part of the potential drops out (harness
+    # shared with C19)
+    HarnessDef("potential-gradient-on-a-profile", _h_veff,
+               [dict(nfields=2, which="derivField", npoints=3, per_point_T=True),
+                dict(nfields=1, which="derivField", npoints=2, per_point_T=True)],
+               max_paths=100, timeout_s=120, validation_rtol=1e-2,
+               encodes=[_EP.EffectivePotential.derivField, _HL.gradient]),
 ]
 
 MANIFEST = {
